@@ -528,6 +528,27 @@ def gen_cases(ctx):
                 case["foreign_files"] = tag
             cases.append(case)
             cid += 1
+    # DOTTED file names (seed-independent): float keys and text with a dot — the result file is `0.5.p`, the temporary
+    # `0.5.p.<pid>.tmp`; a run killed between opening the temporary and the rename leaves that temporary behind, and every
+    # later run with the directory must still complete (nothing may parse these names by their dots)
+    dotted = {"k0": ["n", 0.5], "k1": ["n", 1.5], "k2": ["s", "v1.2"]}
+    dspecs = [("int", 0), ("str", 8), ("list", 5)]
+    for pos in range(3):
+        nops_d = len(ops_of(psize(10 + pos, dspecs[pos])))
+        for c in (1, 2, nops_d - 1):  # after the open, after the first byte, right before the rename
+            case = seq_case(cid, dspecs, pos, c, reruns=(0, 2))
+            case["realkeys"] = dotted
+            cases.append(case)
+            cid += 1
+    case = pool_case(cid, dspecs, {0: 2, 2: 1}, 2, reruns=(0, 0))
+    case["realkeys"] = dotted
+    cases.append(case)
+    cid += 1
+    # ... and a dead process's temporary planted next to a dotted result name
+    for what in (["stale-tmp", 3], ["stale-tmp", 0]):
+        cases.append({"id": cid, "keys": mk_keys(dspecs), "realkeys": dotted,
+                      "script": [["plant", {"k0": what, "k2": what}], ["run", 0], ["run", 2]]})
+        cid += 1
     # F-C19-2: keys the default file naming cannot hold apart / cannot write
     cases.append({"id": cid, "keys": mk_keys([("int", 0), ("str", 8)]), "realkeys": {"k0": ["s", "k_in/2"]},
                   "script": [["run", 0]]})
